@@ -266,3 +266,34 @@ _run0 = run
 
 def run(ctx):
     return _run0(ctx) + [rule_codeobj_fields(ctx)]
+
+
+# ---------------------------------------------------------------------------------------------------------------------------------
+# fourth strengthening round (session G11): rules of sa/rules/sC25.py
+_run1 = run
+
+
+def run(ctx):
+    from ..rules import sC25
+    rules = _run1(ctx) + [sC25.rule_printer(ctx), sC25.rule_signature(ctx), sC25.rule_qualnames(ctx), sC25.rule_codeobject(ctx), sC25.rule_funcattrs(ctx)]
+    # pending finding (FINDING_1..3 of session G11, /tmp/strengthen4/G11): the unmodified printer violates five sub-domains of the round trip
+    # (one-element tuples; conditional expressions as operands; operators under a trailer; negative literals; chained comparisons).
+    # Register them once the repairs are in:   rules += [sC25.rule_printer_pending(ctx, cls) for cls in sC25.PENDING_CLASSES]
+    return rules
+
+TECHNIQUE += ('; finite-domain folding (sa/rules/sC25.ObjFolder) of ExpressionWriter, EmbedSignature and CalculateQualifiedNamesTransform on modelled trees, compared with the checker\'s '
+              'own CPython (ast.parse of the written text, compile() / co_qualname of the same nesting); linear forms over def-node attributes for the code-object description; '
+              'table / role agreement between emitted calls and the C helpers of CythonFunction.c')
+DECIDES += (' C25-RT: the text ExpressionWriter writes for every operator, atom and depth-2 nesting of expression node kinds (incl. calls with * / ** arguments) parses back to the tree it '
+            'was written from - on the sub-domains where the unmodified tree holds; five sub-domains (one-element tuples, conditional expressions as operands, operators under a trailer, '
+            'negative literals, chained comparisons) are violated by the unmodified tree and are kept as pending rules (FINDING_1..3). '
+            'C25-SIG: EmbedSignature.visit_DefNode on every parameter-list shape (0..2 positional-only / positional / keyword-only, *args, **kwargs, defaults, annotations, return '
+            'annotation, three formats, extension-type constructors, docstring placement, clinic end marker). '
+            'C25-QUAL: qualified names for every nesting of def / class / lambda up to depth 3 equal co_qualname. '
+            'C25-CODEOBJ: each description field is initialised with the quantity its width is computed from, C passes the fields in the constructor order of types.CodeType, CO_* flags '
+            'follow the parameter kinds, co_varnames starts with the arguments, file name / function name reach the parameters of that name. '
+            'C25-FUNCATTR: constructor roles (qualname / module / code), kw_only defaults -> dict and positional -> tuple, defaults getter order == C unpacking order, getset rows pair '
+            'getter and setter of their attribute on one struct field, lazily initialised func_X comes from ml_X, creation-time setters write distinct fields.')
+NOT_DECIDED = ('annotation strings (AnnotationNode.string) and the `c` format of typed arguments (not Python syntax by design), cpdef / fused signatures (visit_CFuncDefNode), comprehension and '
+               'lambda printing, wrapper / generator body qualified names (is_wrapper paths), __doc__ of properties, the run-time behaviour of the CyFunction type beyond the table agreements.')
+MUTATIONS = 'see /verif/mutants/C25/*/meta.json (44 brainstormed mutants: 36 breaking - all reported, 8 behaviour-preserving - all silent)'
